@@ -496,8 +496,21 @@ class Discharger:
                     if s and dd[0] <= s[0] and s[1] <= dd[1]:
                         return s
             if d and d[0] == "st" and d[3]["k"] == "=" and d[3]["rv"]["k"] == "use":
+                q = op_place(d[3]["rv"]["op"])
+                if q is not None and len(q["p"]) == 1 and isinstance(q["p"][0], dict) and q["p"][0].get("f") == 0 and depth[0] > 0:
+                    # `.0` of a checked-arithmetic pair: interval of the exact result
+                    dd = self.defs.single(q["l"])
+                    if dd and dd[0] == "st" and dd[3]["k"] == "=" and dd[3]["rv"]["k"] == "bin" and dd[3]["rv"]["op"].endswith("WithOverflow"):
+                        depth[0] -= 1
+                        bop = dd[3]["rv"]["op"].replace("WithOverflow", "")
+                        xa, xb = src_range(dd[3]["rv"]["a"]), src_range(dd[3]["rv"]["b"])
+                        if xa and xb and bop in ("Add", "Sub", "Mul"):
+                            c = [self._fold(bop, x, y) for x in xa for y in xb]
+                            return (min(c), max(c))
+                        return None
                 return src_range(d[3]["rv"]["op"])
             return None
+        depth = [4]
         ra, rb = src_range(ops[0]), src_range(ops[1])
         if ra is None or rb is None:
             return None
